@@ -52,13 +52,16 @@ func runC07(c *Ctx) {
 			c07Porcupine(c)
 		case "pairs":
 			c07Pairs(c)
+		case "labels":
+			c07ManyLabels(c)
 		case "history":
 			c07History(c)
 		}
 		return
 	}
 	var wg sync.WaitGroup
-	wg.Add(3)
+	wg.Add(4)
+	go func() { defer wg.Done(); c07ManyLabels(c) }()
 	go func() { defer wg.Done(); c07Pairs(c) }()
 	go func() { defer wg.Done(); c07History(c) }()
 	go func() { defer wg.Done(); c07LateRepeat(c) }()
@@ -660,5 +663,68 @@ func c07LateRepeat(c *Ctx) {
 		c.Inconclusive("late repeats: a single miss: " + missed[0])
 	case checked > 0:
 		c.Ev.Distinct("late-repeat", "all-hit", checked >= 8)
+	}
+}
+
+// c07ManyLabels: an ip_marker file with 70 000 ranges, every one with a label of its own (clients
+// labelled per customer / AS number) - more labels than fit 16 bits. One question is asked by a
+// client under label #k, then by a client under label #(k+65536), a client under label #(k+1)
+// and again by the first client: the two other groups must not be served the first group's entry,
+// the first client's repeat must be.
+func c07ManyLabels(c *Ctx) {
+	const nRanges = 70000
+	rangeAddr := func(i, host int) string {
+		return fmt.Sprintf("127.%d.%d.%d", 16+i>>9, (i>>1)&0xff, (i&1)*128+host)
+	}
+	var sb strings.Builder
+	for i := 0; i < nRanges; i++ {
+		fmt.Fprintf(&sb, "%s,%s,as%d\n", rangeAddr(i, 0), rangeAddr(i, 127), 4200000000+i)
+	}
+	b, err := NewBed(c, "labels", BedOpts{Upstreams: []string{"pipe"}, MemSize: 32 << 20, IpMarker: sb.String(), Listeners: []string{"udp", "tcp"}})
+	if err != nil {
+		c.startFailure(err, "c07-labels")
+		return
+	}
+	h := &chHist{}
+	n := c.N(24, 400)
+	parallelFor(n, 8, func() bool { return c.ViolationCount() >= 5 || !b.Proxy.Alive() }, func(i int) {
+		r := gen.New(c.Seed, "c07labels", i)
+		k := r.Intn(nRanges - 65536)
+		if i < 2 {
+			k = i * (nRanges - 65536 - 1) // the first and the last label that has a twin 65536 further on
+		}
+		listener := gen.Pick(r, []string{"udp", "tcp"})
+		name := fmt.Sprintf("ok-n2-ttl300-lbl%dx%d.pipe.test.", i, c.Seed)
+		ask := func(rng int, tag string) *chResp {
+			return h.query(b, listener, rangeAddr(rng, r.Range(1, 126)), "", name, dns.TypeA, dns.ClassINET, tag, fmt.Sprint("as", rng))
+		}
+		first := ask(k, "store")
+		twin := ask(k+65536, "label+65536")
+		next := ask(k+1, "label+1")
+		again := ask(k, "repeat")
+		c.Ev.Eval(4)
+		for _, x := range []*chResp{first, twin, next, again} {
+			if x.Err != "" || x.Serial == 0 {
+				c.Inconclusive("many-labels query failed: " + x.Err)
+				return
+			}
+		}
+		cs := map[string]any{"fn": "c07ManyLabels", "label_index": k, "name": name, "listener": listener, "serials": []uint32{first.Serial, twin.Serial, next.Serial, again.Serial}}
+		switch {
+		case twin.Serial == first.Serial:
+			c.Violation("labels:hit-across-client-groups:label+65536", fmt.Sprintf("marker file with %d labels: a client under label #%d was served the entry cached for a client under label #%d (upstream reply %d, no exchange of its own)", nRanges, k+65536, k, first.Serial), cs)
+		case next.Serial == first.Serial || next.Serial == twin.Serial:
+			c.Violation("labels:hit-across-client-groups:label+1", fmt.Sprintf("marker file with %d labels: a client under label #%d was served an entry cached for another label (upstream reply %d)", nRanges, k+1, next.Serial), cs)
+		case again.Serial != first.Serial:
+			c.Violation("labels:miss-on-equivalent:repeat", fmt.Sprintf("marker file with %d labels: the repeat by a client under label #%d was answered with upstream reply %d instead of the cached %d", nRanges, k, again.Serial, first.Serial), cs)
+		default:
+			c.Ev.Count("many_labels_quadruples", 1)
+			c.Ev.Distinct("many-labels", listener, k/1000)
+		}
+	})
+	alive := b.Proxy.Alive()
+	res := b.Stop()
+	if !alive {
+		c.Violation("proxy-died", "the proxy died in the many-labels scenario: "+res.Panic, map[string]any{"panic": res.Panic})
 	}
 }
